@@ -1,5 +1,6 @@
 # configuration of ./check C04 (see checklib/props.py)
-PROP = {'level': 'proof',
+PROP = {'race': True,
+ 'level': 'proof',
  'rule': 'Every plaintext length 0..140 x contents (random, printable, embedded/trailing NULs) x secrets (incl. empty) x authenticators (incl. wrong '
          'sizes) through NewUserPassword and the round trip; every ciphertext length 0..300 through UserPassword.',
  'level_text': 'Lean theorems for an arbitrary 16-byte hash: NewUserPassword equals the RFC 2865 s5.2 ciphertext, has length 16*max(1,ceil(n/16)), '
